@@ -442,7 +442,7 @@ class Conn:
 
     def peer_reset_arrives(self):
         """The peer's RST is in the kernel; the loop processes it (peer_reset) at its next poll.  Until then write_eof() fails."""
-        self.peer_open = False
+        self.rst_pending = True  # (peer_open stays True until the loop has seen the reset: oracles speak about what the loop was told)
         if self.transport is not None:
             self.transport._rst_pending = True
 
